@@ -31,7 +31,7 @@ CLAIMED = {
          'std models; native replay binary is rebuilt per feature set for validation and replay'),
  'C13': ('5/C13', 'every diagram query executed symbolically on diagrams from symbolic truth tables; z3 decides path counts, model-count ratio and 2^depth normalisation, depth, support, both impact measures, disjointness and exact cover of the path cubes; ModelCounts kernels at full 64-bit width.',
          'std models; default feature set; constant diagrams excluded for path cubes'),
- 'C14': ('5/C14', 'both round trips executed symbolically after seeded call histories (and the CLI's --export guard, see note): (a) Bdd::from(nodes) + Adf::from((ordering, bdd, ac)); (b) JSON import modelled from the serde derive attributes read off the source each run (validated against real serde_json natively) followed by the real fix_import. Checked: node list and roots index by index, every answer vs a fresh object, semantic audit of the imported private tables (supports, counts, unique table) by z3, the C06 invariants, and continued construction on the imported store.',
+ 'C14': ('5/C14', 'both round trips executed symbolically after seeded call histories (and the --export guard of the CLI, see note): (a) Bdd::from(nodes) + Adf::from((ordering, bdd, ac)); (b) JSON import modelled from the serde derive attributes read off the source each run (validated against real serde_json natively) followed by the real fix_import. Checked: node list and roots index by index, every answer vs a fresh object, semantic audit of the imported private tables (supports, counts, unique table) by z3, the C06 invariants, and continued construction on the imported store.',
          'serde_json encoder/decoder internals are under a contract model; stores are native-shaped (variable nodes first) and bridged-shaped (only the diagrams\' nodes, as Adf::from_biodivine_vector leaves them); the CLI half (--export never overwrites) is decided on App::run of the binary crate with a stub file system whose exists() is a solver variable (a create of a path not known to be absent is the violation; replayed with the real binary on a real existing file) - the operating system itself is outside'),
  'C16': ('5/C16, 10.2', 'kernels only: the MIR of the server binary merged with the library MIR is executed symbolically - (i) SimplifiedAdf::from(Adf) then Adf::from(SimplifiedAdf) reproduces nodes, roots and names and the rebuilt object answers all six strategies like a fresh one; (ii) DoubleLabeledGraph::from_adf_and_ac on the ADF and on every model of every strategy: node set = reachable set, edges = node table, labels, and z3 decides that following the picture from each root evaluates the submitted acceptance condition under every assignment agreeing with the shown model.',
          'OUTSIDE the claim: HTTP/actix handlers, async task bookkeeping, MongoDB, timeouts, strategy dispatch closure, parse strategies, error reporting for unparseable code. std/Arc/RwLock/String models; native replay compiles the kernels from the server source text'),
